@@ -98,64 +98,22 @@ def effect_table_checks(repo, res, cls, names=None, rule="R-EFFECT"):
 
 
 def check(repo, res, tier):
-    res.rule("R-EFFECT", "per transition type, each builder makes exactly the signed updates of the table with the builder's value")
-    res.rule("R-PAIR", "T-branch: same value, opposite sign, origin/destination")
-    res.rule("R-IDX", "rate-vector row and matrix column come from the same enumeration of the event list")
-    res.rule("R-ACCUM", "accumulators updated additively and all summed into the ODE; explicit terms added at their origin")
+    res.rule("R-EFFECT", "each builder, interpreted on enumerated model definitions (1..3 B/D/T members per event, shared states, symbolic magnitudes, "
+             "explicit terms, one-state / one-event shapes), returns entry by entry what the property defines: V[i,e] = signed magnitudes, rates[e] = rate of event e, "
+             "ode = V*rates + explicit terms (polynomial identities in the rate and magnitude symbols)")
     res.rule("R-ARGORDER", "symbols and values are both ordered (states, t, parameters); values placed by name")
     res.rule("R-DERIVED", "derived parameters substituted for every entry and stored in substituted form")
     res.rule("R-SHAPE", "matrix evaluators registered as matrices; shaping closures ravel / pass through")
-    res.s_clauses = ["S1 R-EFFECT/R-PAIR", "S2 R-IDX", "S3 R-ACCUM", "S4 R-ARGORDER", "S5 R-DERIVED", "S6 R-SHAPE"]
+    res.s_clauses = ["S1-S3 R-EFFECT (values, enumeration, accumulation)", "S4 R-ARGORDER", "S5 R-DERIVED", "S6 R-SHAPE"]
     res.n_clauses = ["that sympy parses a string to the intended expression (incl. range-style symbol expansion)",
                      "that autowrap/lambdify code evaluates the expression it was given (both back-ends)",
                      "numerical equality at sampled points (x, t, theta)"]
     cls = M.sim_class(repo)
-    nb = effect_table_checks(repo, res, cls)
-    # the two unsigned siblings
-    f = repo.resolve_method(cls, "get_TransitionMatrix")
-    sh, effs = E.effects_of(repo, cls, f)
-    got = [(e.ttype, e.roles, e.sign) for e in effs]
-    ok = got == [("T", ("origin", "destination"), "+")] and effs[0].value == MAGRATE
-    nb += 1
-    res.check(ok, "R-EFFECT", f, "branch(T)", "T: +M[origin, destination] with magnitude*rate",
-              "transition matrix is filled by %s" % effs, node=effs[0].stmt if effs else f.node)
-    f = repo.resolve_method(cls, "get_ReactantMatrix")
-    sh, effs = E.effects_of(repo, cls, f)
-    for tt, want in (("B", {("destination", "event")}), ("D", {("origin", "event")}), ("T", {("origin", "event"), ("destination", "event")})):
-        got = [e for e in effs if e.ttype == tt]
-        nb += 1
-        ok = {e.roles for e in got} == want and all(e.sign == "set" and e.value == A.Rat.const(1) for e in got) and len(got) == len(want)
-        res.check(ok, "R-EFFECT", f, "branch(%s)" % tt, "%s marks %s" % (tt, sorted(want)),
-                  "reactant matrix branch %s marks %s, expected %s with value 1" % (tt, [(e.roles, e.sign, e.value) for e in got], sorted(want)),
-                  node=got[0].stmt if got else f.node)
-    res.floor("builder branches", nb, 12)
-
-    # Event.__init__ rejects ODE-type members (so no fourth branch is needed in the builders)
-    ev = repo.func(M.M_TRANS, "Event.__init__")
-    cfg, df = cfg_of(ev), dataflow_of(ev)
-    ok = False
-    for n in cfg.stmt_nodes():
-        if isinstance(n.ast, ast.Raise):
-            for t, o in cfg.guards_of(n):
-                if isinstance(t.ast, ast.If) and o is True and "TransitionType.ODE" in norm(t.ast.test) and "transition_type" in norm(t.ast.test):
-                    ok = True
-    res.check(ok, "R-EFFECT", ev, "rejects-ODE", "an Event cannot contain ODE-type transitions",
-              "Event.__init__ accepts ODE-type transitions, for which the builders have no branch")
-
-    # ------------------------------------------------------------------ S2 R-IDX
-    f = repo.resolve_method(cls, "get_EventRateVector")
-    sh, effs = E.effects_of(repo, cls, f)
-    ok = len(effs) == 1 and effs[0].roles == ("event",) and effs[0].sign == "set" and effs[0].value == A.sym("RATE")
-    res.check(ok, "R-IDX", f, "row=event", "row k of the rate vector holds the rate of event k of the same enumeration",
-              "rate vector filled by %s: rows do not pair the event counter with that event's rate" % effs, node=effs[0].stmt if effs else f.node)
-    f2 = repo.resolve_method(cls, "get_StateChangeMatrix")
-    sh2, effs2 = E.effects_of(repo, cls, f2)
-    ok = bool(effs2) and all(len(e.roles) == 2 and e.roles[1] == "event" for e in effs2)
-    res.check(ok, "R-IDX", f2, "column=event", "matrix columns are indexed by the event counter",
-              "state-change matrix second index is %s" % sorted({e.roles for e in effs2}), node=effs2[0].stmt if effs2 else f2.node)
-
-    # ---------------------------------------------------------------- S3 R-ACCUM
-    _check_accum(repo, res, cls)
+    # S1-S3: every builder, interpreted on enumerated model definitions, returns exactly the matrices the property defines
+    from ..rules import buildx as BX
+    nb = BX.check_builders(repo, res, ["get_StateChangeMatrix", "get_EventRateVector", "get_ode_eqn", "get_pureOdeVector",
+                                       "get_BirthDeathVector", "get_TransitionMatrix", "get_ReactantMatrix"])
+    res.floor("builder interpretations", nb, 60)
 
     # ------------------------------------------------------------- S4 R-ARGORDER
     _check_argorder(repo, res, cls)
